@@ -153,7 +153,7 @@ def run(res, replay=None):
                 pred_cases.append(A)
     # the same decisions through the Coq model (extracted)
     if pred_cases:
-        wd = os.path.join(C.CACHE, "run", "c05")
+        wd = C.rundir("c05")
         os.makedirs(wd, exist_ok=True)
         cf = os.path.join(wd, "pred.cases")
         with open(cf, "w") as f:
